@@ -2,9 +2,9 @@
 # runs every quick check on the current tree, validates the evidence files
 tier=${1:-quick}
 ./check selftest > /tmp/runall_selftest.out 2>&1; echo "selftest exit=$? $(tail -n 1 /tmp/runall_selftest.out)"
-for p in C01 C02 C03 C04 C05 C06 C07 C08 C09 C10 C11 C12 C13 C14 C16 C17 C18 C19 C20; do
-  s=$(date +%s); ./check $p --tier $tier > /tmp/runall_$p.out 2>&1; rc=$?; e=$(( $(date +%s) - s ))
-  echo "$p exit=$rc ${e}s $(grep -c DIVERGENCE /tmp/runall_$p.out) div; $(grep -h 'VIOLATION\|TOOL-ERROR\|NOTE' /tmp/runall_$p.out | head -2 | cut -c1-200)"
+for p in C01 C02 C03 C04 C05 C06 C07 C08 C09 C10 C11 C12 C13 C14 C15 C16 C17 C18 C19 C20; do
+  s=$(date +%s); ./check $p --tier $tier > /tmp/runall_${tier}_$p.out 2>&1; rc=$?; e=$(( $(date +%s) - s ))
+  echo "$p exit=$rc ${e}s $(grep -c DIVERGENCE /tmp/runall_${tier}_$p.out) div; $(grep -h 'VIOLATION\|TOOL-ERROR\|NOTE' /tmp/runall_${tier}_$p.out | head -2 | cut -c1-200)"
 done
 python3-vt - <<'PY'
 import json,jsonschema,glob
